@@ -632,6 +632,31 @@ def closure_paths(prog: Program, outer: FuncInfo, name: str) -> tuple[FuncInfo, 
     return fi, PathEnumerator(prog, fi, outer_env=closure_env(prog, outer)).paths()
 
 
+def block_paths(prog: Program, func: FuncInfo, stmts: list, params: list[str], tag: str) -> list[Path]:
+    """Paths of a block of `func`'s statements seen as a function of the given variables (a state transformer).
+
+    Used to simulate loops exactly over small concrete states: the loop-carried variables become parameters,
+    so guards and assigned values stay symbolic in them instead of being folded with their initial values."""
+    node = ast.FunctionDef(
+        name=f"<{tag}>",
+        args=ast.arguments(posonlyargs=[], args=[ast.arg(arg=p) for p in params], vararg=None, kwonlyargs=[], kw_defaults=[], kwarg=None, defaults=[]),
+        body=list(stmts) or [ast.Pass()],
+        decorator_list=[],
+        returns=None,
+        type_comment=None,
+        type_params=[],
+        lineno=getattr(stmts[0], "lineno", 0) if stmts else 0,
+        col_offset=0,
+    )
+    fi = FuncInfo(node.name, f"{func.qualname}.{node.name}", func.module, node, cls=func.cls)
+    return PathEnumerator(prog, fi).paths()
+
+
+def substitute(term, sigma: dict):
+    """Replace parameters by the terms in sigma."""
+    return T.rewrite(term, lambda x: sigma.get(x[1]) if x[0] == "param" and x[1] in sigma else None)
+
+
 def module_term(prog: Program, mod: Module, name: str) -> tuple:
     """Term of a module-level assignment's value."""
     if name not in mod.assigns:
